@@ -170,6 +170,9 @@ def compute (index : Nat) (dg : DG.Graph) : Node → M Out
     | _, _ => pure (skip index dg)
   | .compound none => pure (skip index dg)
   | .compound (some l) => computeList index dg RelList.empty [] l
+  | .label _ st => compute index dg st                           -- a label is only a marker
+  | .exprList es => computeList index dg RelList.empty [] es     -- `compound(Compound(node.exprs))`
+  | .cast e => compute index dg e                                -- `(type) e;` has the effect of `e;`
   | n@(.funcCall name _) =>
     if Syntax.isAssertAssume name then pure (skip index dg) else pure (skip index dg [n.cls])
   | n => pure (skip index dg [n.cls])
